@@ -142,4 +142,143 @@ theorem read_over_digits_model_eq_source (pre s : Text) :
       congr 2; simp; omega
     · simp [hc, excName]
 
+/-! ### `Lexer._read_over_integer` -/
+
+/-- **`Lexer._read_over_integer`: model = source.** -/
+theorem read_over_integer_model_eq_source (pre s : Text) :
+    Tr.Lexer._read_over_integer (pre ++ s) (pre.length : Int)
+      = match Lex.readOverInteger (pre ++ s).length s with
+        | .ok rest => .ok ((), (((pre ++ s).length - rest.length : Nat) : Int))
+        | .error e => .error (excName e.kind) := by
+  unfold Tr.Lexer._read_over_integer Lex.readOverInteger
+  cases s with
+  | nil => simp [getItem_end, excName]
+  | cons c t =>
+    simp only [getItem_at]
+    by_cases h0 : c = 48
+    · subst h0
+      have e : (pre.length : Int) + 1 = (((pre ++ [48]).length : Nat) : Int) := by simp
+      cases t with
+      | nil =>
+        have e1 : pre ++ [48] = (pre ++ [48]) := rfl
+        simp only [beq_self_eq_true, if_true, e, getItem_end]
+        simp
+      | cons d t' =>
+        have e1 : pre ++ 48 :: d :: t' = (pre ++ [48]) ++ d :: t' := by simp
+        simp only [beq_self_eq_true, if_true, e, e1, getItem_at, digit_eq]
+        by_cases hd : Lex.isDigit d = true
+        · simp [hd, excName]
+        · simp [hd]; omega
+    · have hb : (c == 48) = false := by simp [h0]
+      simp only [hb, Bool.false_eq_true, if_false, h0]
+      rw [read_over_digits_model_eq_source pre (c :: t)]
+      cases Lex.readOverDigits (pre ++ c :: t).length (c :: t) <;> rfl
+
+/-! ### `Lexer._read_over_whitespace` -/
+
+private theorem commentChar_eq (c : Nat) :
+    (((decide (c ≥ 32)) || (c == 9)) && (!([10, 13] : List Nat).contains c)) = Lex.isCommentChar c := by
+  unfold Lex.isCommentChar Lex.isPrintable
+  by_cases h1 : c = 10 <;> by_cases h2 : c = 13 <;> simp [h1, h2, GE.ge]
+
+private theorem ignored_eq (c : Nat) : (([10, 13, 65279, 9, 32, 44] : List Nat).contains c) = Lex.isIgnored c := by
+  unfold Lex.isIgnored Generated.LexTables.ignoredChars; rfl
+
+private theorem row_comment : ∀ s : Text,
+    Lex.readOverWhitespace true s = Lex.readOverWhitespace false (s.dropWhile Lex.isCommentChar)
+  | [] => by simp [Lex.readOverWhitespace]
+  | c :: t => by
+    by_cases hc : Lex.isCommentChar c = true
+    · rw [Lex.readOverWhitespace, List.dropWhile_cons]
+      simp only [hc, Bool.and_self, if_true]
+      exact row_comment t
+    · rw [List.dropWhile_cons]
+      simp only [hc, Bool.false_eq_true, if_false]
+      rw [Lex.readOverWhitespace, Lex.readOverWhitespace]
+      simp [hc]
+
+private theorem row_len : ∀ (s : Text) (b : Bool), (Lex.readOverWhitespace b s).length ≤ s.length
+  | [], b => by simp [Lex.readOverWhitespace]
+  | c :: t, b => by
+    have h1 := row_len t true
+    have h2 := row_len t false
+    rw [Lex.readOverWhitespace]
+    split
+    · simp; omega
+    · split
+      · simp; omega
+      · split
+        · simp; omega
+        · simp
+
+private theorem ws_inner : ∀ (fuel : Nat) (pre s : List Nat) (ch : Nat), s.length < fuel →
+    ∃ ch', Tr.Lexer._read_over_whitespace.while2 (pre ++ s) fuel ch (pre.length : Int)
+      = .fall (ch', (((pre.length + (s.takeWhile Lex.isCommentChar).length : Nat)) : Int))
+  | 0, _, _, _, h => by omega
+  | fuel + 1, pre, [], ch, _ => by
+    rw [Tr.Lexer._read_over_whitespace.while2]
+    exact ⟨ch, by simp [getItem_end]⟩
+  | fuel + 1, pre, c :: t, ch, h => by
+    rw [Tr.Lexer._read_over_whitespace.while2]
+    simp only [getItem_at, commentChar_eq, if_true, List.takeWhile_cons]
+    by_cases hc : Lex.isCommentChar c = true
+    · obtain ⟨ch', ih⟩ := ws_inner fuel (pre ++ [c]) t c (by simp at h; omega)
+      have e1 : pre ++ [c] ++ t = pre ++ c :: t := by simp
+      have e2 : (((pre ++ [c]).length : Nat) : Int) = (pre.length : Int) + 1 := by simp
+      rw [e1, e2] at ih
+      refine ⟨ch', ?_⟩
+      simp only [hc, if_true, ih]
+      congr 2; simp; omega
+    · exact ⟨c, by simp [hc]⟩
+
+private theorem ws_outer : ∀ (fuel : Nat) (pre s : List Nat), s.length < fuel →
+    Tr.Lexer._read_over_whitespace.while1 (pre ++ s) fuel (pre.length : Int)
+      = .fall ((((pre ++ s).length - (Lex.readOverWhitespace false s).length : Nat)) : Int)
+  | 0, _, _, h => by omega
+  | fuel + 1, pre, [], _ => by
+    rw [Tr.Lexer._read_over_whitespace.while1]
+    simp [getItem_end, Lex.readOverWhitespace]
+  | fuel + 1, pre, c :: t, h => by
+    have hlt : t.length < fuel := by simp at h; omega
+    rw [Tr.Lexer._read_over_whitespace.while1, Lex.readOverWhitespace]
+    simp only [getItem_at, ignored_eq, if_true, Bool.false_and, Bool.false_eq_true, if_false]
+    have e1 : pre ++ [c] ++ t = pre ++ c :: t := by simp
+    have e2 : (((pre ++ [c]).length : Nat) : Int) = (pre.length : Int) + 1 := by simp
+    by_cases hi : Lex.isIgnored c = true
+    · have ih := ws_outer fuel (pre ++ [c]) t hlt
+      rw [e1, e2] at ih
+      simp only [hi, if_true, ih]
+    · simp only [hi, Bool.false_eq_true, if_false]
+      by_cases h35 : c = 35
+      · subst h35
+        simp only [beq_self_eq_true, if_true]
+        obtain ⟨ch', hin⟩ := ws_inner ((((Py.len (pre ++ 35 :: t)) - ((pre.length : Int) + 1)) + 1).toNat) (pre ++ [35]) t 35
+          (by simp [Py.len]; omega)
+        rw [e1, e2] at hin
+        rw [hin]
+        simp only []
+        have hsplit : t = t.takeWhile Lex.isCommentChar ++ t.dropWhile Lex.isCommentChar :=
+          (List.takeWhile_append_dropWhile).symm
+        have hlen : (t.takeWhile Lex.isCommentChar).length + (t.dropWhile Lex.isCommentChar).length = t.length := by
+          rw [← List.length_append, List.takeWhile_append_dropWhile]
+        have ih := ws_outer fuel (pre ++ [35] ++ t.takeWhile Lex.isCommentChar) (t.dropWhile Lex.isCommentChar) (by omega)
+        have e3 : pre ++ [35] ++ t.takeWhile Lex.isCommentChar ++ t.dropWhile Lex.isCommentChar = pre ++ 35 :: t := by
+          rw [List.append_assoc, List.takeWhile_append_dropWhile]; simp
+        have e4 : (((pre ++ [35] ++ t.takeWhile Lex.isCommentChar).length : Nat) : Int)
+            = (((pre.length + 1 + (t.takeWhile Lex.isCommentChar).length : Nat)) : Int) := by simp; omega
+        rw [e3, e4] at ih
+        have e5 : (((pre ++ [35]).length + (t.takeWhile Lex.isCommentChar).length : Nat) : Int)
+            = (((pre.length + 1 + (t.takeWhile Lex.isCommentChar).length : Nat)) : Int) := by simp
+        rw [e5, ih, row_comment t]
+      · have hb : (c == 35) = false := by simp [h35]
+        simp [hb, h35]
+
+/-- **`Lexer._read_over_whitespace`: model = source.** -/
+theorem read_over_whitespace_model_eq_source (pre s : Text) :
+    Tr.Lexer._read_over_whitespace (pre ++ s) (pre.length : Int)
+      = .ok ((), (((pre ++ s).length - (Lex.readOverWhitespace false s).length : Nat) : Int)) := by
+  unfold Tr.Lexer._read_over_whitespace
+  simp only []
+  rw [ws_outer _ pre s (by simp [Py.len]; omega)]
+
 end PyGql.Props.C01
